@@ -55,6 +55,9 @@ def ops(tid):
         [('PERF_Event', 1, (8, 1, 0, 0)), ('PERF_STK_UHdr', 0, (1, 2, 0, 0)), ('PERF_STK_UData', 0, (0x10, 0x20, 0, 0)),
          ('PERF_Event', 2, (8, 0, 0, 0))],
         [('MSC_mach_reply_port', 1, (0, 0, 0, 0)), ('MSC_mach_reply_port', 2, (7, 0, 0, 0))],
+        # a sample window with records the tool does not decode before its header, between header and data and after the data
+        [('PERF_Event', 1, (8, 1, 0, 0)), ('MACH_vm_page_release', 0, (1, 2, 3, 4)), ('PERF_STK_UHdr', 0, (1, 3, 0, 0)), ('MACH_vm_page_release', 0, (5, 6, 7, 8)),
+         ('PERF_STK_UData', 0, (0x30, 0x40, 0x50, 0)), ('MACH_vm_page_release', 0, (9, 9, 9, 9)), ('PERF_Event', 2, (8, 0, 0, 0))],
     ]
 
 
@@ -227,7 +230,7 @@ def judge_callstacks_table(label, fn):
     T = default_table()
     ids = {n: E.n2i(n) for n in WORK}
     T2 = fn(T)
-    opseq = [(4, 1), (0, 1), (4, 2)]
+    opseq = [(4, 1), (0, 1), (4, 2), (6, 1), (6, 2)]
     recs, meta = stream_records(opseq, ids)
     renamed = []
     for r, (ts, tid, eid, q) in zip(recs, meta):
@@ -247,6 +250,17 @@ def judge_callstacks_table(label, fn):
         got, exp = run(api, blob, T2), run(api, blob_ren, T)
         if got != exp:
             return ('callstacks-ignore-supplied-table:' + api, {'edit': label, 'got_n': len(got), 'expected_n': len(exp)})
+    # absolute expectation (the comparison above runs the same code twice): while the table still names the sampler records, each
+    # sample's frames are the first N words of ITS stack-data records, whatever other ids the table lacks
+    if all(T2.get(ids[n]) == n for n in ('PERF_Event', 'PERF_STK_UHdr', 'PERF_STK_UData')) and not any(str(x).startswith('RAISED') for x in exp):
+        # (an edit that redirects a record to a decoder it is out of domain for stops both runs with the same error: not judged)
+        try:
+            frames = [[f.address for f in x.frames] for x in PyKdebugParser().callstacks(io.BytesIO(blob), T2)]
+        except Exception as ex:
+            frames = 'RAISED ' + type(ex).__name__
+        want = [[0x10, 0x20], [0x10, 0x20], [0x30, 0x40, 0x50], [0x30, 0x40, 0x50]]
+        if frames != want:
+            return ('callstack-frames-wrong-under-supplied-table', {'edit': label, 'got': repr(frames)[:200]})
     return None
 
 
@@ -387,7 +401,7 @@ class C19(Check):
                 acc.violation('bundled-table-load-not-repeatable', {'kind': 'file-loader'}, {})
         elif desc[0] == 'callstacks':
             for label, fn in edits():
-                if not any(n in label for n in ('PERF_', 'bundled', 'empty', 'only-one', 'BSC_open')):
+                if not any(n in label for n in ('PERF_', 'bundled', 'empty', 'only-one', 'BSC_open', UNDECODABLE)):
                     continue
                 bad = judge_callstacks_table(label, fn)
                 acc.case(nontrivial=True, transitions=4)
